@@ -21,6 +21,7 @@ import (
 
 	"github.com/tokenized/bitcoin_reader/headers"
 	"github.com/tokenized/pkg/bitcoin"
+	"github.com/tokenized/pkg/merkle_proof"
 	"github.com/tokenized/pkg/storage"
 	"github.com/tokenized/pkg/wire"
 
@@ -489,8 +490,13 @@ func (s *state) step(line string) string {
 		}
 		mr, _ := a.Uint("mr")
 		h := &wire.BlockHeader{Version: 1, PrevBlock: s.hashOf(int(prev)), Timestamp: uint32(tm), Bits: uint32(bits), Nonce: uint32(id)}
-		m := sha256.Sum256([]byte(fmt.Sprintf("mr:%d:%d", id, mr)))
-		copy(h.MerkleRoot[:], m[:])
+		if a["blk"] == "1" && mr > 0 {
+			// the header commits to a block of `mr` transactions (ids derived from the header id)
+			h.MerkleRoot = plainMerkleRoot(blockTxids(int(id), int(mr)))
+		} else {
+			m := sha256.Sum256([]byte(fmt.Sprintf("mr:%d:%d", id, mr)))
+			copy(h.MerkleRoot[:], m[:])
+		}
 		s.define(int(id), h)
 		return op + " => ok"
 	case "latest":
@@ -692,11 +698,135 @@ func (s *state) step(line string) string {
 			v = "err:after-genesis"
 		}
 		return op + " => v=" + v
+	case "proof":
+		return op + " => " + s.proofOp(a)
 	case "vloc":
 		l, _ := s.repo.GetVerifyOnlyLocatorHashes(ctx)
 		return op + " => " + s.showLoc(l)
 	}
 	return op + " => bad-op"
+}
+
+func blockTxids(block, n int) []bitcoin.Hash32 {
+	out := make([]bitcoin.Hash32, n)
+	for i := range out {
+		copy(out[i][:], bitcoin.DoubleSha256([]byte(fmt.Sprintf("tx:%d:%d", block, i))))
+	}
+	return out
+}
+
+// plainMerkleRoot is an independent textbook implementation (pair up, duplicate the last when odd).
+func plainMerkleRoot(l []bitcoin.Hash32) bitcoin.Hash32 {
+	if len(l) == 0 {
+		return bitcoin.Hash32{}
+	}
+	for len(l) > 1 {
+		var next []bitcoin.Hash32
+		for i := 0; i < len(l); i += 2 {
+			j := i + 1
+			if j == len(l) {
+				j = i
+			}
+			var h bitcoin.Hash32
+			copy(h[:], bitcoin.DoubleSha256(append(append([]byte{}, l[i][:]...), l[j][:]...)))
+			next = append(next, h)
+		}
+		l = next
+	}
+	return l[0]
+}
+
+// proofOp builds the honest merkle proof of transaction `tx` of the block the header `block`
+// commits to (with the dependency's MerkleTree), applies one mutation and calls VerifyMerkleProof.
+func (s *state) proofOp(a hx.Args) string {
+	ctx := hx.Ctx()
+	bid, ok1 := a.Int("block")
+	n, ok2 := a.Int("n")
+	ti, ok3 := a.Int("tx")
+	hdr, ok4 := s.hdrs[int(bid)]
+	if !ok1 || !ok2 || !ok3 || !ok4 || ti < 0 || ti >= n {
+		return "bad-op"
+	}
+	txids := blockTxids(int(bid), int(n))
+	tree := merkle_proof.NewMerkleTree(true)
+	for i, t := range txids {
+		if int64(i) == ti {
+			tree.AddMerkleProof(t)
+		}
+		tree.AddHash(t)
+	}
+	_, proofs := tree.FinalizeMerkleProofs()
+	if len(proofs) != 1 {
+		return "bad-op"
+	}
+	p := proofs[0]
+	hash := *hdr.BlockHash()
+	if a["form"] == "hash" {
+		p.BlockHash = &hash
+	} else {
+		p.BlockHeader = hdr
+	}
+	mut := a["mut"]
+	switch {
+	case mut == "" || mut == "none":
+	case mut == "txid":
+		var t bitcoin.Hash32
+		copy(t[:], bitcoin.DoubleSha256([]byte("other tx")))
+		p.TxID = &t
+	case strings.HasPrefix(mut, "path:"):
+		k, _ := strconv.Atoi(mut[5:])
+		if k < len(p.Path) {
+			copy(p.Path[k][:], bitcoin.DoubleSha256([]byte("other sibling")))
+		}
+	case strings.HasPrefix(mut, "index:"):
+		d, _ := strconv.Atoi(mut[6:])
+		p.Index += d
+	case strings.HasPrefix(mut, "other:"):
+		// the proof claims another header (known or not)
+		o, _ := strconv.Atoi(mut[6:])
+		oh, ok := s.hdrs[o]
+		if !ok {
+			return "bad-op"
+		}
+		ohash := *oh.BlockHash()
+		if a["form"] == "hash" {
+			p.BlockHash = &ohash
+		} else {
+			p.BlockHeader = oh
+		}
+	case mut == "unknownhash":
+		u := unknownHash(777777)
+		p.BlockHeader = nil
+		p.BlockHash = &u
+	case mut == "noblock":
+		p.BlockHeader = nil
+		p.BlockHash = nil
+	default:
+		return "bad-op"
+	}
+	out, ptxt := hx.Guard(func() string {
+		h, longest, err := s.repo.VerifyMerkleProof(ctx, p)
+		if err != nil {
+			switch errors.Cause(err) {
+			case headers.ErrUnknownHeader:
+				return "r=err:unknown"
+			case headers.ErrHeaderNotAvailable:
+				return "r=err:notavail"
+			case merkle_proof.ErrWrongMerkleRoot:
+				return "r=err:root"
+			case merkle_proof.ErrBadIndex:
+				return "r=err:badindex"
+			case merkle_proof.ErrNotVerifiable:
+				return "r=err:notverifiable"
+			}
+			return "r=err:other"
+		}
+		return fmt.Sprintf("r=ok h=%d longest=%d", h, b2i(longest))
+	})
+	if out == "panic" {
+		return "r=panic #" + strings.ReplaceAll(ptxt, " ", "_")
+	}
+	return out
 }
 
 func b2i(b bool) int {
